@@ -93,6 +93,7 @@ MCSpec == MCInit /\ [][UNCHANGED c]_vars
 
 \* C10 at design level
 RegistryInvariant == (Dev = {}) => RegistryOK(Final(c))
+RegistryInvariantD == RegistryOK(Final(c))
 \* every target namespace of the set got exactly one module
 AllModules == (Dev = {}) => \A i \in 1..NFiles : Cardinality({k \in 1..Len(Final(c).tns) : Final(c).tns[k].uri = c.tns[i]}) = 1
 
